@@ -150,6 +150,67 @@ def genoFloor (k : StatKind) (nsites : Nat) : Rat :=
   | .f2 | .f3 | .f4 => 1
   | _ => 8
 
+/-- `hist.scs shape bits ops` — a call history on ONE spectrum object: every query must return what the pure model
+    functions return on the object's current contents (nothing cached by an earlier call may survive an edit, nothing an
+    earlier call did may leak into a later one). Ops, `;`-separated:
+    `sum`, `stat:<kind>`, `set:<flat>:<bits>` (IndexMut), `setm:<flat>:<bits>` (through `inner_mut`), `norm`, `clone`,
+    `fold:<fill bits>`, `marg:<axes>`, `proj:<shape>` (results returned), `refold`, `remarg:<axes>`, `reproj:<shape>`
+    (the object is replaced by the result). The implementation answers one token per op. -/
+def histStep (st : Arr XR) (op : String) (tok : String) : Option (Arr XR × Bool) :=
+  let xrHalf : XR := .fin (1 / 2)
+  let cmpArrTok (t : String) (b : Arr XR) (scale : Rat) : Bool :=
+    match t.splitOn "|" with
+    | [sh, bs] => (match parseNats sh, parseBits bs with
+      | some s, some d => s == b.shape && allAgree d b.data (some scale)
+      | _, _ => false)
+    | _ => false
+  match op.splitOn ":" with
+  | ["sum"] => match parseHexNat tok with
+    | some b => some (st, (f64OfBits b).agrees (st.data.foldl (· + ·) (.fin 0)) (some (sumAbs st.data)))
+    | none => some (st, false)
+  | ["stat", kn] => (kindOfName kn).map (fun k => (st, cmpOne k st tok))
+  | ["set", f, b] | ["setm", f, b] => do
+    let i ← f.toNat?; let v ← parseHexNat b
+    pure (⟨st.data.set i (f64OfBits v), st.shape⟩, tok == "-")
+  | ["norm"] => some (⟨normalize st.data, st.shape⟩, tok == "-")
+  | ["clone"] => some (st, tok == "-")
+  | ["fold", fb] => do
+    let v ← parseHexNat fb
+    pure (st, cmpArrTok tok ⟨foldSpectrum xrHalf (f64OfBits v) st.shape st.data, st.shape⟩ (sumAbs st.data))
+  | ["refold"] =>
+    let b : Arr XR := ⟨foldSpectrum xrHalf (.fin 0) st.shape st.data, st.shape⟩
+    some (b, tok == "-")
+  | ["marg", ax] | ["remarg", ax] => do
+    let axes ← parseNats ax
+    match marginalize st axes with
+    | .ok b => if op.startsWith "re" then pure (b, tok == "-") else pure (st, cmpArrTok tok b (sumAbs st.data))
+    | .error _ => pure (st, tok == "ERR")
+  | ["proj", sh] | ["reproj", sh] => do
+    let t ← parseNats sh
+    match project st t with
+    | .ok b => if op.startsWith "re" then pure (b, tok == "-") else pure (st, cmpArrTok tok b (sumAbs st.data))
+    | .error _ => pure (st, tok == "ERR")
+  | _ => none
+
+def handleHist (a : List String) (impl : String) : Option Verdict :=
+  match a with
+  | [sh, bs, opss] => do
+    let shape ← parseNats sh; let data ← parseBits bs
+    let ops := opss.splitOn ";"
+    let toks := impl.splitOn ";"
+    if ops.length != toks.length then pure (.bad s!"{ops.length} answers expected") else
+    let rec go (st : Arr XR) (i : Nat) : List (String × String) → Option (Option (Nat × String))
+      | [] => some none
+      | (op, tok) :: rest =>
+        match histStep st op tok with
+        | none => none
+        | some (st', ok) => if ok then go st' (i + 1) rest else some (some (i, op))
+    match go ⟨data, shape⟩ 0 (ops.zip toks) with
+    | none => none
+    | some none => pure (.ok s!"hist-d{shape.length}-{if opss.contains "set" then "edit" else "read"}-{if (opss.splitOn "re").length > 1 then "replace" else "keep"}")
+    | some (some (i, op)) => pure (.bad s!"call {i} ({op}) does not return what the model computes on the object's current contents")
+  | _ => none
+
 def handleStat (op : String) (a : List String) (impl : String) : Option Verdict :=
   match op, a with
   | "st.calc", [ks, sh, bs] => do
